@@ -278,6 +278,11 @@ func (r *Report) Finish() int {
 		ev["assumptions"] = []string{}
 	}
 	bs, _ := json.MarshalIndent(ev, "", " ")
+	if d := os.Getenv("COVERIF_EVIDENCE_DIR"); d != "" {
+		// experiments (seeded changes, sweeps): a copy of what the evidence file would say, never /verif/evidence
+		os.MkdirAll(d, 0o755)
+		os.WriteFile(filepath.Join(d, r.Property+".json"), append(bs, '\n'), 0o644)
+	}
 	if !r.NoEvidence {
 		os.MkdirAll(filepath.Join(r.verifDir, "evidence"), 0o755)
 		evPath := filepath.Join(r.verifDir, "evidence", r.Property+".json")
